@@ -23,6 +23,11 @@ except BaseException as E:
     spatial = exceptions.ExceptionWrapper(E)
 
 try:
+    from scipy.spatial import QhullError
+except BaseException:
+    QhullError = BaseException
+
+try:
     import psutil
 
     def _MAX_MEMORY():
@@ -86,7 +91,16 @@ def minimum_nsphere(obj):
     # this will fail if the points are ALL on the surface of
     # the n-sphere but hopefully the least squares check caught those cases
     # , qhull_options='QbB Pp')
-    voronoi = spatial.Voronoi(points, furthest_site=True)
+    try:
+        voronoi = spatial.Voronoi(points, furthest_site=True)
+    except QhullError:
+        # qhull needs at least `dimension + 2` sites and refuses sites which
+        # are cospherical to its precision: a flat simplex or a flattened
+        # prism gets here because the least squares fit of the very large
+        # sphere through them doesn't converge to `1e-6`. The fit sphere
+        # was re-sized above to contain every point so return that.
+        log.debug("furthest site voronoi failed, returning fit", exc_info=True)
+        return fit_C, fit_R
 
     # find the maximum radius^2 point for each of the voronoi vertices
     # this is worst case quite expensive but we have taken
